@@ -1,10 +1,101 @@
 (* C15 — Relay dialing tries every resolved address and returns the first success.
-   This file holds ONLY the property theorems; each is closed by `exact`. *)
+   This file holds ONLY the property theorems; each is closed by `exact`.
+
+   `sc` ranges over ALL scenarios of the dial loop: any preference, any resolution stream
+   (addresses of either family with any outcome connect/refuse after any latency/hang,
+   resolver errors, each with the time from which it is ready) and any time of the end of
+   resolution.  `run_sc sc = (r, s)`: the simulated loop returns r in final state s;
+   `log s` is the list of attempts (start time, address), newest first; `now s` the
+   time of return. *)
+From Coq Require Import Permutation.
 From V Require Import Lib.Base Gen.Consts Model.C15 Proofs.C15.
 Import C15.
 Open Scope N_scope.
 
-(* Some select! arm is enabled in every state that is not the exit state. *)
+(* Dialing fails only after every resolved address has been attempted (each exactly once):
+   an address is left unattempted only if an attempt succeeded. *)
+Theorem C15_all_attempted_or_won : forall sc c s,
+  run_sc sc = (Err c, s) -> Permutation (addrs_of (items sc)) (map snd (log s)).
+Proof. exact all_attempted_or_won. Qed.
+Print Assumptions C15_all_attempted_or_won.
+
+(* The returned address is an attempted one that connected exactly at the time of return,
+   and no attempt made connects earlier: the first success is returned. *)
+Theorem C15_returns_first_success : forall sc a s,
+  run_sc sc = (Ok a, s) ->
+  exists t, In (t, a) (log s) /\ succ a = true /\ dend_at t a = now s /\
+    forall t' a', In (t', a') (log s) -> succ a' = true -> now s <= dend_at t' a'.
+Proof. exact returns_first_success. Qed.
+Print Assumptions C15_returns_first_success.
+
+(* Dialing fails only when resolution has finished (the end of the stream was delivered,
+   not before its time), nothing is queued or in flight, and every attempt has failed. *)
+Theorem C15_fails_only_when_exhausted : forall sc c s,
+  run_sc sc = (Err c, s) ->
+  fin s = true /\ rest s = [] /\ tend sc <= now s /\ queue s = [] /\ dials s = [] /\
+  forall t a, In (t, a) (log s) -> succ a = false /\ dend_at t a <= now s.
+Proof. exact fails_only_when_exhausted. Qed.
+Print Assumptions C15_fails_only_when_exhausted.
+
+(* If an address of the preferred family resolves within RESOLUTION_DELAY of the first
+   resolved address (inclusive), the first attempt (last entry of the newest-first log)
+   is of the preferred family. *)
+Theorem C15_first_attempt_preferred : forall sc t0 a0 tl,
+  sorted (items sc) -> stream_addrs (items sc) = (t0, a0) :: tl ->
+  forall t1 a1, In (t1, a1) (stream_addrs (items sc)) -> v6 a1 = pref sc -> t1 <= t0 + RD ->
+  forall r s l x, run_sc sc = (r, s) -> log s = l ++ [x] -> v6 (snd x) = pref sc.
+Proof. exact first_attempt_preferred_sec. Qed.
+Print Assumptions C15_first_attempt_preferred.
+
+(* Consecutive attempts y then x are of different families whenever, at the time of x, both
+   families have an address that resolved before and is still untried. *)
+Theorem C15_alternates_while_both : forall sc r s,
+  sorted (items sc) -> run_sc sc = (r, s) ->
+  forall l1 x y l2, log s = l1 ++ x :: y :: l2 ->
+    untried (stream_addrs (items sc)) (y :: l2) (fst x) true = true ->
+    untried (stream_addrs (items sc)) (y :: l2) (fst x) false = true ->
+    v6 (snd x) <> v6 (snd y).
+Proof. exact alternates_while_both_prop. Qed.
+Print Assumptions C15_alternates_while_both.
+
+(* In every state that is not the exit state some select! arm is enabled. *)
 Theorem C15_no_deadlock : forall sc s s', step sc s <> Stuck s'.
 Proof. exact no_deadlock. Qed.
 Print Assumptions C15_no_deadlock.
+
+(* The loop returns within 3 * #stream items + 3 iterations ... *)
+Theorem C15_fuel_suffices : forall sc,
+  exists r s, run (3 * length (items sc) + 3) sc (init sc) = Some (r, s).
+Proof. exact fuel_suffices. Qed.
+Print Assumptions C15_fuel_suffices.
+
+(* ... never by wedging ... *)
+Theorem C15_never_wedged : forall sc s, run_sc sc <> (Panic, s).
+Proof. exact run_sc_not_panic. Qed.
+Print Assumptions C15_never_wedged.
+
+(* ... and the bound 2 * #addresses + 3 of the first design is too small. *)
+Theorem C15_fuel_2n_plus_3_refuted :
+  exists sc, run (2 * length (items sc) + 3) sc (init sc) = None.
+Proof. exact fuel_2n_plus_3_refuted. Qed.
+Print Assumptions C15_fuel_2n_plus_3_refuted.
+
+(* The stream that resolve_host_all produces from two lookups is sorted, so the two theorems
+   with that premise apply to every correspondence input. *)
+Theorem C15_resolved_stream_sorted : forall i, sorted (items (sc_of i)).
+Proof. exact sc_of_sorted. Qed.
+Print Assumptions C15_resolved_stream_sorted.
+
+(* The model's output satisfies the monitor for every input (no known class). *)
+Theorem C15_model_satisfies_monitor : forall i, monitor i (model i) = true.
+Proof. exact model_monitor. Qed.
+Print Assumptions C15_model_satisfies_monitor.
+
+(* What the result part of the monitor says about an observed output, as a Prop;
+   its other two parts are first_ok and alt_ok, read by C15_first_attempt_preferred and
+   C15_alternates_while_both. *)
+Theorem C15_monitor_result_is_property : forall i lg r e,
+  monitor i (lg, r, e) = true ->
+  result_spec (stream_addrs (items (sc_of i))) lg (tend (sc_of i)) r e.
+Proof. exact monitor_result_spec. Qed.
+Print Assumptions C15_monitor_result_is_property.
